@@ -284,9 +284,14 @@ pub fn run_case(case: &Case, mode: &Mode) -> CaseReport {
     let prog = Prog::from_json(&serde_json::from_str::<Value>(case.desc).expect("bad case description"));
     let kind = prog.kind();
     let m = mode.name.as_str();
-    match m {
-        "C08" | "C03T" => return crate::threads::run_case(case, &prog, mode),
-        "C09" | "C03A" | "C18A" => return crate::asyncx::run_case(case, &prog, mode),
+    // properties over schedules dispatch on the macro kind
+    let sub = |name: &str| Mode { name: name.to_string(), seed: mode.seed, budget: mode.budget, strict: mode.strict };
+    match (m, kind.is_async, kind.is_spawn) {
+        ("C03", false, true) => return crate::threads::run_case(case, &prog, &sub("C03T")),
+        ("C03", true, _) => return crate::asyncx::run_case(case, &prog, &sub("C03A")),
+        ("C08", false, true) => return crate::threads::run_case(case, &prog, mode),
+        ("C09", true, _) => return crate::asyncx::run_case(case, &prog, mode),
+        ("C18", _, _) => return crate::extra::run_case_c18(case, &prog, mode),
         _ => {}
     }
     let ids = model::decision_ids(&prog);
@@ -344,6 +349,34 @@ pub fn main(cases: &[Case]) {
         std::panic::set_hook(Box::new(|_| {}));
     }
     let mode = Mode { name, seed, budget, strict: false };
+    // child process of a panic-injection run
+    if std::env::var("JV_CHILD").is_ok() {
+        let plan = Plan::from_json(&serde_json::from_str::<Value>(&std::env::var("JV_PLAN").expect("JV_PLAN")).expect("JV_PLAN json"));
+        for case in cases {
+            if only == Some(case.idx) {
+                crate::extra::child_main(case, &plan);
+            }
+        }
+        return;
+    }
+    // C07: digests for the orchestrator's cross-macro comparison
+    if mode.name == "C07" {
+        for case in cases {
+            if only.map(|o| o != case.idx).unwrap_or(false) {
+                continue;
+            }
+            let prog = Prog::from_json(&serde_json::from_str::<Value>(case.desc).expect("bad case description"));
+            let r = catch_unwind(AssertUnwindSafe(|| crate::extra::run_case_c07(case, &prog, &mode)));
+            match r {
+                Ok((rep, extra)) => println!(
+                    "{}",
+                    json!({"case": case.idx, "runs": rep.runs, "nontrivial": rep.nontrivial, "classes": rep.classes, "samples": rep.samples, "violations": rep.violations, "infra": rep.infra, "c07": extra})
+                ),
+                Err(p) => println!("{}", json!({"case": case.idx, "runs": 0, "nontrivial": 0, "classes": {}, "samples": [], "violations": [], "infra": [format!("runner panicked: {}", panic_message(&p))]})),
+            }
+        }
+        return;
+    }
     // a single replayed plan
     if let Ok(p) = std::env::var("JV_PLAN") {
         let plan = Plan::from_json(&serde_json::from_str::<Value>(&p).expect("JV_PLAN"));
